@@ -186,10 +186,11 @@ def _style_declarations(base):
     """
     Recursively find all CSSStyleDeclarations.
     """
-    for rule in getattr(base, 'cssRules', ()):
-        yield from _style_declarations(rule)
+    # in document order: declarations of e.g. @page precede its margin rules
     if hasattr(base, 'style'):
         yield base.style
+    for rule in getattr(base, 'cssRules', ()):
+        yield from _style_declarations(rule)
 
 
 def getUrls(sheet):
